@@ -100,6 +100,13 @@ func RegisterTypeMigration(previousPkgPath, previousTypeName string, newType err
 	if f, ok := backwardRegistry[newKey]; ok {
 		panic(fmt.Errorf("migration to type %q already registered (from %q)", newKey, f))
 	}
+	// If the previous name is itself the product of an earlier migration
+	// (chained renames declared oldest first), migrate directly from the
+	// original name, so that the outcome does not depend on the order
+	// in which chained migrations are registered.
+	if origKey, ok := backwardRegistry[prevKey]; ok {
+		prevKey = origKey
+	}
 	backwardRegistry[newKey] = prevKey
 	// If any other key was registered as a migration from newKey,
 	// we'll forward those as well.
